@@ -125,7 +125,10 @@ class Acc(object):
     def note(self, case, res, known):
         self.evaluations += 1
         for lab in res.labels:
-            self.labels[lab] = self.labels.get(lab, 0) + 1
+            if isinstance(lab, tuple):   # (name, amount): a measured quantity
+                self.labels[lab[0]] = self.labels.get(lab[0], 0) + lab[1]
+            else:
+                self.labels[lab] = self.labels.get(lab, 0) + 1
         if res.nontrivial:
             h = case_hash(case)
             if h not in self.nontrivial:
